@@ -454,7 +454,7 @@ package vuego
 //@   trusted
 //@   modifies nothing
 //@   ensures err == nil ==> fm == parsedFM(l.FS, filename, curInstant(l.FS, filename)) && domOfBytes(b) == parsedDom(l.FS, filename, curInstant(l.FS, filename))
-//@   ensures l.FS != nil && !fileExists(l.FS, filename) ==> err != nil
+//@   ensures l.FS == nil || !fileExists(l.FS, filename) ==> err != nil
 //@ func (ctx VueContext) WithTemplate(filename) (r)
 //@   modifies nothing
 //@   ensures C05.shared.stack: r.stack == ctx.stack && r.seen == ctx.seen && r.SlotScope == ctx.SlotScope
